@@ -32,6 +32,10 @@ CLAIMED = {
    text="Deductive proof of checkAuth against its contract: success implies the returned level intersects the endpoint's mask, the identity/level/issue time were established by a verified unexpired keymaster_auth cookie, by a keymaster-signed non-deny-listed client certificate, by an IP-restricted certificate used inside its netblocks by an automation identity whose key is not deny-listed, or by a back-end accepted password after a limiter token; non-GET requests with a foreign Origin/Referer host are refused. The signing wrappers require the ghost 'authenticated' flag that only checkAuth's success sets, and call-graph rules pin the lib/certgen signers to those wrappers.",
    note=TRUST + "Only the certificate-issuing handlers are covered by effect preconditions so far (profile/token effects are claimed under C08 when built); TLS chain verification is trusted (crypto/tls heap invariant).",
    design="7 (C06)"),
+ "C07": dict(
+   text="Deductive proof over the LDAP authenticator with a ghost context per attempt: while no server has answered nothing is decided or written (loop invariants over the server x bind-pattern loops); the first answer is final (returned verdict == the directory's verdict); the cache record is consulted only when no server answered, only for the same user and record type, and only its comparison with the submitted password can accept; acceptance writes the hash of the very password the directory confirmed with expiry now+expirationDuration (96 h, proved at the constructor) and is the only writer (call-graph rule); rejection evicts a cached hash that matches the rejected password. GetSigned (goroutine and select modelled as an arbitrary received value) accepts a record only if it verifies under a published keymaster key as a storage record, is unexpired and was signed for the looked-up user. checkUserPassword returns exactly the back end's verdict, and checkAuth/login establish the identity the back end accepted.",
+   note=TRUST + "Directory answers, Argon2 and the SQL layer are uninterpreted call results; htpassword/command back ends are covered only through the pwauth interface verdict; the lag between primary and cache databases is C15 territory.",
+   design="7 (C07)"),
  "C08": dict(
    text="Deductive proof, per handler that reads or changes a profile or administers users, of the effect preconditions: LoadUserProfile/SaveUserProfile/DeleteUserProfile and the token-management handlers are reached only for the user checkAuth established, or for another user when the ghost admin flag was set by IsAdminUser for that established user and (for token changes/registrations) the established session carries the U2F bit; the user-administration and bootstrap-OTP handlers require the admin flag; automation certificates are signed only after isAutomationAdmin/IsAdminUser accepted the established user and only for a name in the configured automation lists; the admin cache returns a cached verdict only while younger than five minutes unless the directory failed.",
    note=TRUST + "Group membership lookups (LDAP) are uninterpreted call results. The five-minute rule is proved on admincache.Cache.Get against the ghost clock. Templates rendering a profile are not modelled.",
